@@ -2,6 +2,8 @@ SPECIFICATION Spec
 CONSTANTS
   N = 2
   Sample <- MCNoSample
+  SampOut <- MCNone
+  SampCov <- MCNone
   CovGrid <- MCCov
   OutGrid <- MCOut
   BaseGrid <- MCBase
